@@ -14,17 +14,37 @@
    [C12_app_in_term] composes the three along every history and concludes exactly the
    predicate the differential run evaluates on the real emulator.
 
-   What is still assumed in (c) and in the composition (visible as the hypothesis [toks_ok]):
-   every number the renderer writes is written with digits and fits a machine integer (cursor
-   coordinates >= 0, cursor style a small number), hyperlink parameters contain no ';', and
-   every glyph is written where it fits before the right edge - RefTerm makes the other case
-   DPoison and the emulator wraps and may scroll there.  For the renderer's own output these
-   follow from the content hypotheses of C01 (no wide cell overhangs the right edge) but that
-   derivation is not proved here; drawing into a host window is C05_draw_inside plus the
-   differential run. *)
+   The side condition [toks_ok] of (c) - every number the renderer writes is written with
+   digits and fits a machine integer (cursor coordinates >= 0, cursor style a small number),
+   hyperlink parameters contain no ';', and every glyph is written where it fits before the
+   right edge (RefTerm makes the other case DPoison, the emulator wraps and may scroll there) -
+   stays a hypothesis of [C12_emu_simulates_refterm(_list)], which speak about ANY token list,
+   and of the older composition [C12_app_in_term].  For the renderer's own output it is a
+   theorem: [C12_renderer_output_ok] (proofs/EmuToksOk.v: a cursor-tracking induction over the
+   render loop, from C01's content hypotheses - no wide cell overhangs the right edge), and
+   [C12_app_in_term_full] is the composition without it.
+
+   What is still assumed in [C12_app_in_term_full]:
+   - C01's content hypotheses, frame by frame ([content_ok]: widths agree, measured widths are
+     the oracle's, attribute masks are uint8, no sixel cell, no wide cell over the right edge);
+   - two decidable hypotheses stated in the theorem (model/EmuWire.v): [wire_ok] on the
+     application's content of every frame - the hyperlink parameters of the cells that can be
+     written contain no ';' (the url may; [C12_wire_ok_needed]: with a ';' the renderer's OSC 8
+     is split differently by the emulator), a requested visible cursor has style 0..65535 and
+     coordinates -1 <= x < 2^63 - 1 - and [size_ok] on the initial size and on every size
+     change: fewer than 2^63 rows and columns (the 1-based CUP numbers fit a machine integer);
+   - the resize case: after a size change the emulator state is ASSUMED (a universally
+     quantified hypothesis inside [emu_history_full], as inside [emu_history_ok]) well-formed,
+     in Vaxis' modes and related by [emu_rel] to the resized reference terminal, about whose
+     cells nothing is known; Term.resize (which re-prints the old screen) is not shown to
+     produce such a state;
+   - [enc_tok] (token -> delivered sequence) is tied to the real parser only through the
+     differential run; drawing into a host window is C05_draw_inside plus the differential
+     run. *)
 From Vx Require Import base.Prelude base.ListX model.Colour model.RenderTypes model.Render model.RefTerm
-  model.RenderSpec model.RenderCheck model.Gate model.EmuSpec model.EmuBridge
-  proofs.RenderDelta proofs.RenderRow proofs.RenderFrame proofs.RenderHistory proofs.GateProofs proofs.EmuRefine.
+  model.RenderSpec model.RenderCheck model.Gate model.EmuSpec model.EmuBridge model.EmuWire
+  proofs.RenderDelta proofs.RenderRow proofs.RenderFrame proofs.RenderHistory proofs.GateProofs proofs.EmuRefine
+  proofs.EmuToksOk.
 From Vx Require proofs.TermProofs proofs.TermRefine5.
 
 (* (a) under the emulator's capability set, every history makes every conforming terminal of
@@ -94,6 +114,86 @@ Proof.
     intros r Hin; apply zrepeat_In in Hin; subst r; rewrite zlen_repeat by lia; congruence.
 Qed.
 Print Assumptions C12_app_in_term.
+
+(* the side condition is a theorem about the renderer: every frame (drawing calls, then Render,
+   Refresh or a size change) from every Vaxis state whose two screens have the size of the
+   reference terminal [r] ([dims_ok] - part of the invariant [settled] of C01's frame theorem;
+   nothing about what the terminal displays is needed) writes a token list that satisfies
+   [toks_ok] from [r]: only the vocabulary of term_caps, every number and parameter as the wire
+   needs it, and every glyph of width w written at a column c of the reference terminal with
+   c + w <= cols.  Hypotheses: C01's content hypotheses on the screen being rendered, and the two
+   decidable ones of model/EmuWire.v *)
+Theorem C12_renderer_output_ok : forall tw measure (s : vstate) (r : term) (ops : list op) (e : frame_end),
+  v_caps s = term_caps -> dims_ok s r -> size_ok (tm_rows r) (tm_cols r) ->
+  content_ok tw measure term_caps (fold_left apply_op ops s) ->
+  wire_ok (fold_left apply_op ops s) = true ->
+  toks_ok tw r (snd (do_frame s ops e)).
+Proof. exact frame_toks_ok. Qed.
+Print Assumptions C12_renderer_output_ok.
+
+(* the composition without the side condition: [emu_history_full] is [emu_history_ok] with the
+   hypothesis "toks_ok tw r o" of every frame removed; in its place every frame has the
+   decidable hypothesis wire_ok on the application's content (next to content_ok) and every
+   size change the hypothesis size_ok.  After every Render / Refresh the emulator accepts the
+   encoded tokens and its grid and cursor satisfy grid_shows / cursor_shows against the
+   application's screen - the predicate of the differential run *)
+Theorem C12_app_in_term_full : forall tw measure rows cols (r0 : term) (t0 : T.term) e (fs : list frame),
+  1 <= rows -> 1 <= cols -> size_ok rows cols ->
+  tm_rows r0 = rows -> tm_cols r0 = cols ->
+  tm_pen r0 = tpen0 -> tm_link r0 = ([], []) -> tm_vis r0 = false -> tm_mouse r0 = [] ->
+  TermProofs.WFs0 e cols rows t0 -> vaxis_modes t0 = true -> emu_rel t0 r0 ->
+  emu_history_full tw measure (vinit term_caps rows cols) r0 t0 fs.
+Proof.
+  intros tw measure rows cols r0 t0 e fs Hr Hc Hsz R C P L V M HW HM HR.
+  apply (emu_history_full_correct tw measure fs _ r0 t0 e cols rows); auto;
+    [|intros H; discriminate|rewrite R, C; exact Hsz].
+  unfold settled, dims_ok, vinit, blank_grid. cbn [v_next v_last v_clast v_mlast cu_vis].
+  repeat split; try lia; try assumption; try (rewrite zlen_repeat by lia; congruence);
+    intros r Hin; apply zrepeat_In in Hin; subst r; rewrite zlen_repeat by lia; congruence.
+Qed.
+Print Assumptions C12_app_in_term_full.
+
+(* what [emu_history_full] says for a history of one Render, spelled out (the definition is a
+   Fixpoint in proofs/EmuToksOk.v): no side condition is left *)
+Example C12_history_full_unfolds : forall tw measure s r t ops,
+  emu_history_full tw measure s r t [(ops, FRender)] =
+  (let s1 := fold_left apply_op ops s in
+   content_ok tw measure term_caps s1 -> wire_ok s1 = true ->
+   let '(s', o) := do_frame s ops FRender in
+   exists t', emu_toks tw t o = T.TOk t' /\
+     grid_shows term_caps (v_next s1) (grid_of t') = true /\
+     cursor_shows (tm_rows r) (tm_cols r) (v_cnext s1) (ecursor_of t') = true /\
+     True).
+Proof.
+  intros tw measure s r t ops. cbn [emu_history_full]. cbv zeta.
+  destruct (do_frame s ops FRender) as [s' o]. reflexivity.
+Qed.
+
+(* the new hypotheses are satisfiable: a screen with a wide cell that carries a hyperlink with
+   parameters, a visible cursor with a shape, on a 2x3 terminal - C01's content hypotheses (in
+   their decidable form grid_ok), wire_ok and size_ok hold *)
+Example C12_wire_example :
+  let tw := lookup_w [([97], 1); ([28450], 2); ([], 0)] in
+  let st := {| s_fg := index_color 3; s_bg := rgb_color 1 2 3; s_ul := 0; s_uls := 3; s_attr := 6;
+               s_link := [104]; s_linkp := [105; 100] |} in
+  let wide := {| c_g := [28450]; c_w := 0; c_mw := 2; c_st := st; c_sixel := false |} in
+  let a := {| c_g := [97]; c_w := 0; c_mw := 1; c_st := style0; c_sixel := false |} in
+  let s1 := fold_left apply_op [OSet 0 0 wide; OSet 2 0 a; OShowCursor 1 1 4] (vinit term_caps 2 3) in
+  grid_ok tw tw term_caps (v_next s1) = true /\ wire_ok s1 = true /\ size_ok 2 3.
+Proof. vm_compute. repeat split. Qed.
+
+(* and wire_ok is not gratuitous: with a ';' among the hyperlink parameters of a cell the
+   renderer writes an OSC 8 that violates the side condition (the emulator cuts params from
+   url at the first ';'), and wire_ok is false *)
+Example C12_wire_ok_needed :
+  let tw := lookup_w [([97], 1); ([], 0)] in
+  let st := {| s_fg := 0; s_bg := 0; s_ul := 0; s_uls := 0; s_attr := 0; s_link := [104]; s_linkp := [105; 59; 100] |} in
+  let a := {| c_g := [97]; c_w := 0; c_mw := 1; c_st := st; c_sixel := false |} in
+  let s0 := vinit term_caps 2 3 in
+  let s1 := fold_left apply_op [OSet 0 0 a] s0 in
+  grid_ok tw tw term_caps (v_next s1) = true /\ wire_ok s1 = false /\
+  toks_okb tw (term_unknown 2 3) (snd (do_frame s0 [OSet 0 0 a] FRender)) = false.
+Proof. vm_compute. repeat split. Qed.
 
 (* the hypotheses on the start states are satisfiable: the emulator after New(), the first
    resize and Vaxis' start-up sequence that hides the cursor, against a reference terminal
